@@ -14,8 +14,8 @@ as a deadlock instead of hanging.
 A schedule is the sequence of thread indices chosen at the yield points, stored
 run-length encoded `[[tid, n], ...]`; `Replay` re-executes it. Determinism: the
 code under test must reach the same yield points given the same schedule, which
-holds when every trial starts from the same process state (the C15 worker forks
-each trial from one warmed-up parent).
+holds when every trial meets the same relevant process state (the C15 worker gives every
+trial brand-new hints/configurations and replays an episode in a fresh interpreter).
 
 Nothing here is specific to beartype except the lock discovery
 (`install_coop_locks`), which looks at modules/objects of a package prefix.
@@ -109,27 +109,32 @@ class CoopLock:
 
 
 def install_coop_locks(prefix: str = 'beartype') -> dict:
-    """Replace every Lock/RLock reachable as a global of a `prefix` module or as an
-    attribute of an instance of a class defined in a `prefix` module. Returns label -> CoopLock."""
+    """Replace every Lock/RLock reachable as a global of a `prefix` module or as an attribute of an instance of a
+    class defined in a `prefix` module. Returns label -> CoopLock; labels are `<module>.<global>` and
+    `<module>.<global holding the instance>.<attribute>` (`<module>.<Class>#<k>.<attribute>` for anonymous instances)."""
     seen: dict[int, CoopLock] = {}
     out: dict[str, CoopLock] = {}
+    keep = []
 
     def coop(old, label):
         c = seen.get(id(old))
         if c is None:
-            if old.locked() if isinstance(old, _LOCK_T) else False:
+            if isinstance(old, _LOCK_T) and old.locked():
                 raise RuntimeError(f'{label} is held while installing cooperative locks')
             c = seen[id(old)] = CoopLock(isinstance(old, _RLOCK_T), label)
             out[label] = c
+            keep.append(old)
         return c
-    keep = []
-    for mname, mod in sorted(sys.modules.items()):
-        if mod is None or not (mname == prefix or mname.startswith(prefix + '.')):
-            continue
+    mods = [(n, m) for n, m in sorted(sys.modules.items())
+            if m is not None and (n == prefix or n.startswith(prefix + '.'))]
+    owner_name: dict[int, str] = {}
+    for mname, mod in mods:
         for k, v in list(vars(mod).items()):
             if isinstance(v, (_LOCK_T, _RLOCK_T)):
-                keep.append(v)
                 setattr(mod, k, coop(v, f'{mname}.{k}'))
+            elif getattr(type(v), '__module__', '').startswith(prefix) and not isinstance(v, type):
+                owner_name.setdefault(id(v), f'{mname}.{k}')
+    anon = 0
     for o in gc.get_objects():
         cls = type(o)
         m = getattr(cls, '__module__', None)
@@ -148,12 +153,15 @@ def install_coop_locks(prefix: str = 'beartype') -> dict:
             except Exception:
                 continue
             if isinstance(v, (_LOCK_T, _RLOCK_T)):
-                keep.append(v)
+                own = owner_name.get(id(o))
+                if own is None:
+                    anon += 1
+                    own = f'{m}.{cls.__name__}#{anon}'
                 try:
-                    setattr(o, n, coop(v, f'{m}.{cls.__name__}#{len(out)}.{n}'))
+                    setattr(o, n, coop(v, f'{own}.{n}'))
                 except Exception:
                     pass
-    install_coop_locks.keep = keep   # ids stay unique
+    install_coop_locks.keep = keep   # the replaced locks stay alive: ids stay unique
     return out
 
 
@@ -193,26 +201,41 @@ class Serial(Chooser):
 class Preempt(Chooser):
     """Preemption-bounded: like Serial(order) except at the given preemption points.
     A point is [tid, counter, n, to]: when thread `tid` reaches the n-th event of kind
-    `counter` ('focus' = yield point in a focus file, 'any' = any yield point, 'lock' = lock acquire/release)
+    `counter` ('focus' = yield point in a focus file, 'any' = any yield point, 'lock' = lock acquire/release,
+    '@<file relative to the traced tree>:<line>[:<instruction offset>]' = n-th visit of that focus location)
     it is preempted in favour of thread `to` (None = next enabled in order after it)."""
 
-    def __init__(self, order, points):
+    def __init__(self, order, points, prefix=''):
         self.order = list(order)
         self.points = {}
+        self.locpoints = {}
         for tid, counter, n, to in points:
-            self.points.setdefault((tid, counter, n), to)
+            if counter.startswith('@'):
+                parts = counter[1:].split(':')
+                loc = (prefix + parts[0],) + tuple(int(x) for x in parts[1:])
+                self.locpoints.setdefault((tid, loc, n), to)
+            else:
+                self.points.setdefault((tid, counter, n), to)
 
     def choose(self, s, me, enabled, kind):
         if me is None or me not in enabled:
             return self._keep_or(None if me not in enabled else me, enabled, self.order)
+        pts = self.points
         hit = None
-        for counter, n in (('any', me.n_any), ('focus', me.n_focus if kind in ('focus', 'lock') else -1),
-                           ('lock', me.n_lock if kind == 'lock' else -1)):
-            if n >= 0 and (me.tid, counter, n) in self.points:
-                hit = (me.tid, counter, n)
-        if hit is None:
+        if (me.tid, 'any', me.n_any) in pts:
+            hit = pts.pop((me.tid, 'any', me.n_any))
+        elif kind == 'focus' or kind == 'lock':
+            if (me.tid, 'focus', me.n_focus) in pts:
+                hit = pts.pop((me.tid, 'focus', me.n_focus))
+            elif kind == 'lock' and (me.tid, 'lock', me.n_lock) in pts:
+                hit = pts.pop((me.tid, 'lock', me.n_lock))
+            elif kind == 'focus' and self.locpoints and (me.tid, me.last, me.loc_n) in self.locpoints:
+                hit = self.locpoints.pop((me.tid, me.last, me.loc_n))
+            else:
+                return me
+        else:
             return me
-        to = self.points.pop(hit)
+        to = hit
         others = [t for t in enabled if t is not me]
         if not others:
             return me
@@ -284,12 +307,12 @@ class Replay(Chooser):
         return self._keep_or(me, enabled, [])
 
 
-def make_chooser(spec) -> Chooser:
+def make_chooser(spec, prefix='') -> Chooser:
     k = spec[0]
     if k == 'serial':
         return Serial(spec[1])
     if k == 'preempt':
-        return Preempt(spec[1], spec[2])
+        return Preempt(spec[1], spec[2], prefix)
     if k == 'pct':
         return PCT(spec[1], spec[2])
     if k == 'random':
@@ -302,19 +325,43 @@ def make_chooser(spec) -> Chooser:
 # ---------------------------------------------------------------------------
 # the scheduler
 # ---------------------------------------------------------------------------
+class _Worker:
+    """A pooled OS thread: waits on `wake`, runs `job`, waits again (thread start-up is the dominant cost of a trial)."""
+
+    def __init__(self):
+        self.wake = threading.Semaphore(0)
+        self.job = None
+        self.thread = threading.Thread(target=self._loop, daemon=True)
+        self.thread.start()
+
+    def _loop(self):
+        while True:
+            self.wake.acquire()
+            job, self.job = self.job, None
+            if job is None:
+                return
+            job()
+
+
+_POOL: list = []
+
+
 class _T:
-    __slots__ = ('tid', 'fn', 'sem', 'thread', 'done', 'waiting', 'result', 'error', 'n_any', 'n_focus', 'n_lock', 'last')
+    __slots__ = ('tid', 'fn', 'sem', 'worker', 'done', 'waiting', 'result', 'error', 'n_any', 'n_focus', 'n_lock', 'last',
+                 'locs', 'loc_n')
 
     def __init__(self, tid, fn):
         self.tid, self.fn = tid, fn
-        self.sem = threading.Semaphore(0)
-        self.thread = None
+        self.worker = None
+        self.sem = None          # = worker.wake: the token this thread parks on
         self.done = False
         self.waiting = None
         self.result = None
         self.error = None
         self.n_any = self.n_focus = self.n_lock = 0
         self.last = None
+        self.locs = {}           # focus location (file, line[, instruction offset]) -> visits so far
+        self.loc_n = 0           # visits of the location of the current focus event
 
     def __repr__(self):
         return f'T{self.tid}'
@@ -373,6 +420,7 @@ class Scheduler:
         me.n_any += 1
         if kind == 'focus':
             me.n_focus += 1
+            me.loc_n = me.locs[me.last] = me.locs.get(me.last, 0) + 1
         elif kind == 'lock':
             me.n_focus += 1
             me.n_lock += 1
@@ -428,7 +476,7 @@ class Scheduler:
 
         def local_opcode(frame, event, arg):
             if event == 'opcode':
-                me.last = (frame.f_code.co_filename, frame.f_lineno)
+                me.last = (frame.f_code.co_filename, frame.f_lineno, frame.f_lasti)
                 yp(me, 'focus')
             return local_opcode
 
@@ -445,7 +493,6 @@ class Scheduler:
         return global_trace
 
     def _body(self, me: _T):
-        me.sem.acquire()
         _TL.me = me
         if self.fatal is None:
             sys.settrace(self._make_tracer(me))
@@ -482,17 +529,27 @@ class Scheduler:
         ACTIVE = self
         try:
             for t in self.threads:
-                t.thread = threading.Thread(target=self._body, args=(t,), daemon=True)
-                t.thread.start()
+                t.worker = _POOL.pop() if _POOL else _Worker()
+                t.sem = t.worker.wake
+                t.worker.job = (lambda t=t: self._body(t))
             first = self.chooser.choose(self, None, self._enabled(), 'start')
             self._record(first)
             first.sem.release()
             if not self.main_sem.acquire(timeout=hang_timeout):
                 self.fatal = self.fatal or {'kind': 'hang', 'threads': [
                     {'tid': t.tid, 'done': t.done, 'at': t.last} for t in self.threads]}
-                return self
-            for t in self.threads:
-                t.thread.join(timeout=5.0)
+                return self            # the stuck workers are abandoned (daemon threads)
+            if self.fatal is None:
+                _POOL.extend(t.worker for t in self.threads)
+            else:
+                # woken threads unwind with SchedAbort; threads never started still hold a job: let them drain
+                deadline = 50
+                while deadline and not all(t.done for t in self.threads):
+                    for t in self.threads:
+                        if not t.done:
+                            t.sem.release()
+                    threading.Event().wait(0.02)
+                    deadline -= 1
         finally:
             ACTIVE = None
         return self
